@@ -152,7 +152,7 @@ impl Part for WirePart {
         "one client (plain or TLS) sends 1..4 groups of 1..3 requests (simple 1..3 statements, empty query, extended batches with Describe/portal suspension, COPY OUT, COPY IN/FAIL optionally after a SELECT in the same query), each group written back-to-back (pipelining) with generated write splits (inside headers too); reply shapes from directives: 0..2000 rows, row sizes around the 8196-byte flush threshold, 16 KiB, 100 kB, NoticeResponse/ParameterStatus/ErrorResponse at generated positions, server write chunking. Oracle: bytes received by the mock (minus pgcat's own closed set) == bytes sent by the client; bytes received by the client == bytes the mock emitted, in order. Non-trivial = a reply larger than 8196 bytes, a header split, a Notice/ParameterStatus/Error mid-stream, COPY, or pipelining".into()
     }
     fn cases(&self, tier: Tier) -> u64 {
-        tier.pick(500, 12_000)
+        tier.pick(2_000, 24_000)
     }
     fn strategy(&self, _tier: Tier) -> BoxedStrategy<Case> {
         case_strategy()
